@@ -89,6 +89,94 @@ pub fn do_setup(s: &J) -> R<J> {
     Ok(json!({"ev": "EnvCheck", "accepted": n, "rejected": rejected, "storeMismatch": store_mismatch}))
 }
 
+// ---------------------------------------------------------------- typed ASTs
+use cedar_policy_core::validator::types::{BoolType, EntityKind, OpenTag, RequestEnv as VRequestEnv, Type as VType};
+
+fn vtype_to_wire(t: &VType) -> J {
+    match t {
+        VType::Never => json!(["Never"]),
+        VType::Bool(BoolType::AnyBool) => json!(["Bool"]),
+        VType::Bool(BoolType::True) => json!(["True"]),
+        VType::Bool(BoolType::False) => json!(["False"]),
+        VType::Long => json!(["Long"]),
+        VType::String => json!(["String"]),
+        VType::Entity(EntityKind::AnyEntity) => json!(["AnyEntity"]),
+        VType::Entity(EntityKind::Entity(lub)) => match lub.get_single_entity() {
+            Some(et) => json!(["Entity", et.to_string()]),
+            None => json!(["AnyEntity"]),
+        },
+        VType::Set { element_type: None } => json!(["AnySet"]),
+        VType::Set { element_type: Some(e) } => json!(["Set", vtype_to_wire(e)]),
+        VType::Record { attrs, open_attributes } => {
+            let mut m = serde_json::Map::new();
+            for (k, a) in attrs.iter() {
+                m.insert(k.to_string(), json!([vtype_to_wire(&a.attr_type), a.is_required]));
+            }
+            json!(["Record", m, matches!(open_attributes, OpenTag::OpenAttributes)])
+        }
+        VType::ExtensionType { name } => json!(["Ext", name.to_string()]),
+    }
+}
+
+/// typed expression -> ["t", type, node] where node is the wire expression whose children are typed again
+fn typed_to_wire(e: &ast::Expr<Option<VType>>) -> J {
+    use ast::ExprKind as K;
+    let ty = match e.data() {
+        Some(t) => vtype_to_wire(t),
+        None => json!(["none"]),
+    };
+    let node = match e.expr_kind() {
+        K::Lit(_) | K::Var(_) | K::Slot(_) | K::Unknown(_) => expr_to_wire(e),
+        K::If { test_expr, then_expr, else_expr } => json!(["if", typed_to_wire(test_expr), typed_to_wire(then_expr), typed_to_wire(else_expr)]),
+        K::And { left, right } => json!(["and", typed_to_wire(left), typed_to_wire(right)]),
+        K::Or { left, right } => json!(["or", typed_to_wire(left), typed_to_wire(right)]),
+        K::UnaryApp { op, arg } => {
+            let t = match op {
+                ast::UnaryOp::Not => "not",
+                ast::UnaryOp::Neg => "neg",
+                ast::UnaryOp::IsEmpty => "isEmpty",
+            };
+            json!([t, typed_to_wire(arg)])
+        }
+        K::BinaryApp { op, arg1, arg2 } => json!(["bin", binop_name(*op), typed_to_wire(arg1), typed_to_wire(arg2)]),
+        K::ExtensionFunctionApp { fn_name, args } => json!(["call", fn_name.to_string(), args.iter().map(typed_to_wire).collect::<Vec<_>>()]),
+        K::GetAttr { expr, attr } => json!(["get", typed_to_wire(expr), attr.to_string()]),
+        K::HasAttr { expr, attr } => json!(["has", typed_to_wire(expr), attr.to_string()]),
+        K::Like { expr, pattern } => json!(["like", typed_to_wire(expr), pattern_to_wire(pattern)]),
+        K::Is { expr, entity_type } => json!(["is", typed_to_wire(expr), entity_type.to_string()]),
+        K::Set(items) => json!(["set", items.iter().map(typed_to_wire).collect::<Vec<_>>()]),
+        K::Record(m) => {
+            let mut o = serde_json::Map::new();
+            let mut keys = vec![];
+            for (k, v) in m.iter() {
+                o.insert(k.to_string(), typed_to_wire(v));
+                keys.push(k.to_string());
+            }
+            json!(["record", o, keys])
+        }
+    };
+    json!(["t", ty, node])
+}
+
+fn typed_trees(schema: &cedar_policy::Schema, pol: &ast::Policy) -> Vec<J> {
+    use cedar_policy_core::validator::typecheck::{PolicyCheck, Typechecker};
+    let tc = Typechecker::new(schema.as_ref(), cedar_policy_core::validator::ValidationMode::Strict);
+    let mut out = vec![];
+    for (renv, check) in tc.typecheck_by_request_env(pol.template()) {
+        let (p, a, r) = match &renv {
+            VRequestEnv::DeclaredAction { principal, action, resource, .. } => (principal.to_string(), uid_to_wire(action), resource.to_string()),
+            VRequestEnv::UndeclaredAction => continue,
+        };
+        let (kind, typed) = match &check {
+            PolicyCheck::Success(e) => ("success", typed_to_wire(e)),
+            PolicyCheck::Irrelevant(_, e) => ("irrelevant", typed_to_wire(e)),
+            PolicyCheck::Fail(_) => ("fail", json!(["none"])),
+        };
+        out.push(json!({"principal": p, "action": a, "resource": r, "kind": kind, "typed": typed}));
+    }
+    out
+}
+
 pub fn class_of(r: &Result<bool, cedar_policy_core::evaluator::EvaluationError>) -> &'static str {
     match r {
         Ok(true) => "true",
@@ -121,8 +209,9 @@ pub fn run(case: &J) -> R<J> {
             let ev = Evaluator::new(req.clone(), ents, Extensions::all_available());
             classes.insert(class_of(&ev.evaluate(pol)));
         }
+        let typed = if strict.validation_passed() { typed_trees(&setup.schema, pol) } else { vec![] };
         let mut out = json!({
-            "ev": "Validate", "policy": with_record_keys(p), "must": case["must"],
+            "ev": "Validate", "policy": with_record_keys(p), "must": case["must"], "typed": typed,
             "strict": strict.validation_passed(), "permissive": permissive.validation_passed(),
             "impossible": impossible, "classes": classes,
             "strictErrors": strict.validation_errors().map(|e| e.to_string()).take(2).collect::<Vec<_>>(),
